@@ -70,6 +70,15 @@ fn tree(max_entries: usize, max_many: u16, many_w: u32, big: u32) -> impl Strate
     prop::collection::vec((any::<u16>(), name_tree(), ekind(max_many, many_w, big)).prop_map(|(parent, name, kind)| Entry { parent, name, kind }), 0..=max_entries)
 }
 
+/// A tree that is guaranteed to hold at least two regular files (copy / read families).
+fn tree_with_files(max_entries: usize, big: u32) -> impl Strategy<Value = Vec<Entry>> {
+    (data_copy(big), data_copy(big), name_tree(), tree(max_entries, 0, 0, big)).prop_map(|(d1, d2, n2, mut t)| {
+        t.insert(0, Entry { parent: 0, name: NameSpec::new(b"f1", 0), kind: EKind::File(d1) });
+        t.insert(1, Entry { parent: 0, name: n2, kind: EKind::File(d2) });
+        t
+    })
+}
+
 fn pad_any() -> impl Strategy<Value = Pad> {
     prop_oneof![
         16 => Just(Pad::None),
@@ -405,21 +414,44 @@ pub fn run(ctx: &Ctx) {
     let big: u32 = if thorough { 1_500_000 } else { 120_000 };
     let env = Env::new(ctx.worker, max_many as usize);
     let f = |c: &Case| run_case(&env, c);
+    // diagnostics only (never part of a verdict): C14_TIMING=1 prints seconds per sub-check
+    let t0 = std::time::Instant::now();
+    let timing = std::env::var_os("C14_TIMING").is_some();
+    let lap = |what: &str| {
+        if timing {
+            let mut ru: libc::rusage = unsafe { core::mem::zeroed() };
+            unsafe { libc::getrusage(libc::RUSAGE_SELF, &mut ru) };
+            let cpu = ru.ru_utime.tv_sec as f64 + ru.ru_stime.tv_sec as f64 + (ru.ru_utime.tv_usec + ru.ru_stime.tv_usec) as f64 / 1e6;
+            eprintln!("[c14 worker {}] wall {:>8.2}s cpu {:>8.2}s evals {:>6} after {what}", ctx.worker, t0.elapsed().as_secs_f64(), cpu, ctx.stats.borrow().evaluations);
+        }
+    };
 
     // deterministic shapes
     directed(ctx, &env, "create_dir_all-shapes", shapes_create_dir_all());
+    lap("create_dir_all-shapes");
     directed(ctx, &env, "copy-shapes", shapes_copy());
+    lap("copy-shapes");
     directed(ctx, &env, "write-read-shapes", shapes_write_read());
+    lap("write-read-shapes");
     directed(ctx, &env, "remove_dir_all-shapes", shapes_remove_dir_all());
+    lap("remove_dir_all-shapes");
     directed(ctx, &env, "readdir-shapes", shapes_readdir());
+    lap("readdir-shapes");
 
     // random, one family per sub-check
     ctx.run_prop("create_dir_all", ctx.cases(400, 12_000), case_of(tree(6, 0, 0, 5000), op_cda(), 4), f);
-    ctx.run_prop("copy", ctx.cases(300, 8_000), case_of(tree(6, 0, 0, big), op_copy(), 4), f);
-    ctx.run_prop("write-read", ctx.cases(300, 8_000), case_of(tree(6, 0, 0, big), prop_oneof![op_write(big), op_read()], 6), f);
-    ctx.run_prop("remove_dir_all", ctx.cases(300, 8_000), case_of(tree(14, max_many, 1, 5000), op_rda(), 3), f);
-    ctx.run_prop("readdir", ctx.cases(300, 6_000), case_of(tree(10, max_many, 3, 5000), op_readdir(), 3), f);
+    lap("create_dir_all");
+    ctx.run_prop("copy", ctx.cases(300, 8_000), case_of(tree_with_files(5, big), op_copy(), 4), f);
+    lap("copy");
+    ctx.run_prop("write-read", ctx.cases(300, 8_000), case_of(tree_with_files(5, big), prop_oneof![op_write(big), op_read()], 6), f);
+    lap("write-read");
+    ctx.run_prop("remove_dir_all", ctx.cases(200, 6_000), case_of(tree(12, max_many, 1, 5000), op_rda(), 3), f);
+    lap("remove_dir_all");
+    ctx.run_prop("readdir", ctx.cases(150, 5_000), case_of(tree(8, max_many, 2, 5000), op_readdir(), 3), f);
+    lap("readdir");
     ctx.run_prop("rename-misc", ctx.cases(400, 12_000), case_of(tree(10, 40, 1, 5000), op_misc(), 8), f);
+    lap("rename-misc");
     // mixed histories
-    ctx.run_prop("history", ctx.cases(500, 15_000), case_of(tree(12, max_many, 1, big), op_any(big), 30), f);
+    ctx.run_prop("history", ctx.cases(300, 15_000), case_of(tree(12, max_many, 1, big), op_any(big), 30), f);
+    lap("history");
 }
